@@ -1044,6 +1044,12 @@ func (ex *exec) instr(st *State, ins ssa.Instruction) {
 		vc.oblige("safety.makeslice", "safety", ex.cur, "(and (<= 0 "+n+") (<= "+n+" "+c+"))", "make: 0 <= len <= cap", pos)
 		vc.assume(ex.cur, "(and (<= 0 "+n+") (<= "+n+" "+c+"))")
 		et := x.Type().Underlying().(*types.Slice).Elem()
+		if st0, isStruct := et.Underlying().(*types.Struct); !isStruct || st0.NumFields() > 0 {
+			// a make that returns allocated at most maxAlloc bytes (2^48 on the 64-bit targets): beyond that the
+			// runtime panics with "len out of range", i.e. the call does not return (partial correctness)
+			vc.assume(ex.cur, "(<= "+c+" 281474976710656)")
+			vc.eng.noteAssumption("a make([]T, n) that returns allocated at most 2^48 elements (runtime maxAlloc; a larger request panics, i.e. does not return)")
+		}
 		ref := vc.allocRef(st)
 		hi := vc.elemHeap(et)
 		vc.heapSet(st, hi, "(store "+vc.heapGet(st, hi)+" "+ref+" "+vc.constArray(hi.valSort, vc.sorts.zero(et))+")")
